@@ -5,6 +5,7 @@ import Csvq.Model.Scanner
 import Csvq.Model.UnaryPrint
 import Csvq.Model.OpExpr
 import Csvq.Model.Clause
+import Csvq.Model.LalrTables
 namespace Csvq.Drive
 open Csvq Csvq.Proto Csvq.Esc Csvq.Scan Csvq.UPrint
 
@@ -138,6 +139,32 @@ def selx (words : List String) : String :=
     | some (s, []) => String.intercalate " " ((printSelect genTable s).map tokToWord)
     | _ => "ERR"
 
+/-! `c18.lalr`: the goyacc driver model over the token codes the real scanner produced -/
+
+/-- the loop of `Lalr.run` again, also folding the reductions (production, state) into a hash and counting them;
+    same `step`, same fuel discipline -/
+def lalrTrace (T : Lalr.Tables) : Nat → Lalr.St → Nat → Nat → Lalr.Result × Nat × Nat
+  | 0, _, n, h => (.outOfFuel, n, h)
+  | fuel + 1, s, n, h =>
+    match Lalr.step T s with
+    | .next s' (.reduce p st) => lalrTrace T fuel s' (n + 1) ((h * 1000003 + p.toNat * 2048 + st.toNat + 1) % 4294967296)
+    | .next s' _ => lalrTrace T fuel s' n h
+    | .accept => (.accept, n, h)
+    | .abort i => (.syntaxError i, n, h)
+    | .panic w => (.indexPanic w, n, h)
+
+def lalrOp (args : List String) : String :=
+  match args.mapM String.toInt? with
+  | none => "bad-op"
+  | some toks =>
+    let (r, n, h) := lalrTrace Lalr.genT (1000 * (toks.length + 2)) (Lalr.init toks) 0 0
+    let tail := " n=" ++ toString n ++ " h=" ++ toString h
+    match r with
+    | .accept => "accept" ++ tail
+    | .syntaxError i => "syntax-error " ++ toString i ++ tail
+    | .indexPanic w => "index-panic " ++ reprStr w
+    | .outOfFuel => "out-of-fuel"
+
 def c18 (cmd : String) (args : List String) : String :=
   let bad := "bad-op"
   match cmd, args with
@@ -159,6 +186,7 @@ def c18 (cmd : String) (args : List String) : String :=
     | _, _ => bad
   | "opx", l => opx l
   | "sel", l => selx l
+  | "lalr", l => lalrOp l
   | "unary", l =>
     match parseUExpr l with
     | some e => hexChars e.print ++ " " ++ (if hasCommentOpener e.print then "1" else "0")
